@@ -344,7 +344,8 @@ func (c *compiler) compileType(y *Type, parent Leafable, isUnion bool) error {
 				Id:    item.val,
 				Label: item.ident,
 			}
-			if item.val >= nextId {
+			if item.val >= nextId || i == 0 {
+				// i == 0: values may be negative, the first one is the highest so far whatever it is
 				nextId = item.val + 1
 			}
 		}
